@@ -354,7 +354,7 @@ def run(ctx):
     thorough = ctx.tier == "thorough"
     model = Model(ctx.tier)
     depth = 5 if thorough else 4
-    res = explore.explore(model, ctx, depth)
+    res = explore.explore(model, ctx, depth, validate_canon=200 if thorough else 40)
 
     max_iter = 3 if thorough else 2
     max_dev = None if thorough else 3
